@@ -8,7 +8,7 @@ BYTE = G.BYTE
 
 INFO = {
     "rule": "every scope chain (length <=2 quick + a reduced alphabet at length 3; <=3 full thorough) over scope-pushing composites {Struct, "
-            "Sequence, FocusedSeq, Union, LazyStruct}, repeaters {Array, GreedyRange, RepeatUntil} and transparent wrappers {Prefixed, "
+            "Sequence, FocusedSeq, Union, LazyStruct}, repeaters {Array, GreedyRange, RepeatUntil, Array/GreedyRange with discard=True} and transparent wrappers {Prefixed, "
             "FixedSized, Padded, IfThenElse, Switch, Renamed}, with at the innermost position every reference path available there "
             "(earlier sibling, one '_' per enclosing scope to that scope's sibling, _root.x, _params.k, _index and _._index, the three "
             "mode flags) in every role (value: Computed; length: Bytes(p&1); count: Array(p&1, Byte); branch: If(p, Byte)), run through "
@@ -16,7 +16,7 @@ INFO = {
             "(a stack of frames: S pushes, '_' pops one, _root is the outermost pushed frame, _params the keyword frame at every depth, "
             "_index the innermost repeater's index as seen from the frame, exactly one flag true); bytes built for a value must parse "
             "back to it. non-trivial = library and reference both accept and value/bytes were compared; distinct = (shape, op, input, kw)",
-    "bounds": {"quick": {"depth": 2, "depth3_alphabet": ["Struct", "SequenceD", "Array", "Prefixed", "LazyStruct", "FocusedSeq"]},
+    "bounds": {"quick": {"depth": 2, "depth3_alphabet": ["Struct", "SequenceD", "Array", "ArrayD", "Prefixed", "LazyStruct", "FocusedSeq"]},
                "thorough": {"depth": 3, "depth3_alphabet": None}},
     "trusted_base": ["mc/ref.py context model (push/top_ctx, 25 lines) and expression evaluator"],
     "assumptions": ["LazyStruct members refer only to _, _root, _params (documented restriction: no sibling cross references)",
@@ -28,7 +28,7 @@ INFO = {
 # it is the value build computed, not the one supplied
 S_KINDS = ["Struct", "Sequence", "FocusedSeq", "Union", "LazyStruct", "StructD", "SequenceD"]
 DERIVED = ["Rebuild", BYTE, ["bin", "+", ["path", ["_params", "k"]], ["k", 1]]]
-R_KINDS = ["Array", "GreedyRange", "RepeatUntil"]
+R_KINDS = ["Array", "GreedyRange", "RepeatUntil", "ArrayD", "GreedyRangeD"]      # ..D: built with discard=True
 W_KINDS = ["Prefixed", "FixedSized", "Padded", "IfThenElse", "Switch", "Renamed"]
 ALL_KINDS = S_KINDS + R_KINDS + W_KINDS
 
@@ -53,6 +53,10 @@ def wrap(kind, inner, level):
         return ["Array", 2, inner]
     if kind == "GreedyRange":
         return ["GreedyRange", inner]
+    if kind == "ArrayD":
+        return ["Discard", ["Array", 2, inner]]
+    if kind == "GreedyRangeD":
+        return ["Discard", ["GreedyRange", inner]]
     if kind == "RepeatUntil":
         return ["RepeatUntil", ["lenge", 2], inner]
     if kind == "Prefixed":
@@ -68,6 +72,14 @@ def wrap(kind, inner, level):
     if kind == "Renamed":
         return ["Renamed", inner, "rn"]
     raise ValueError(kind)
+
+
+def undiscard(t):
+    if isinstance(t, list):
+        if t and t[0] == "Discard":
+            return undiscard(t[1])
+        return [undiscard(x) for x in t]
+    return t
 
 
 def probes(chain):
@@ -184,7 +196,10 @@ def check_shape(t, d, chain, r=None, only=None, path=None):
     show = T.show(t)
     # no round-trip claim where the composition itself cannot represent it: a Union builds only its first present member, and
     # zero padding of FixedSized/Padded re-parses as further elements of a GreedyRange (typing rule of DESIGN 2.1)
-    has_union = "Union" in chain or ("GreedyRange" in chain and ("FixedSized" in chain or "Padded" in chain))
+    chain_g = ["GreedyRange" if k == "GreedyRangeD" else k for k in chain]
+    has_union = "Union" in chain or ("GreedyRange" in chain_g and ("FixedSized" in chain or "Padded" in chain))
+    discards = "ArrayD" in chain or "GreedyRangeD" in chain
+    t_full = undiscard(t) if discards else t
     def bad(kind, case, detail):
         out.append({"sig": "C07/%s/%s" % (kind, tsig), "case": dict(case, term=t, chain=chain), "detail": detail})
     for kw in KWS:
@@ -208,6 +223,12 @@ def check_shape(t, d, chain, r=None, only=None, path=None):
                     r.case(nontrivial=True, outcome="parse-ok", validated=1)
                 # build the parsed value: same bytes as the model, and they parse back to the value
                 v = T.denorm(want[1])
+                if discards:
+                    # a discarding repeater returns nothing, so the value to build comes from the collecting twin; no round trip
+                    full = outcome_ref(lambda: R.parse(t_full, x, **kw))
+                    if full[0] != "ok":
+                        continue
+                    v = T.denorm(full[1])
                 wb = outcome_ref(lambda: (R.build(t, v, **kw),))
                 gb = rt.build(d, v, kw)
                 caseb = {"op": "build", "value": enc_value(v), "kw": kw}
@@ -216,7 +237,7 @@ def check_shape(t, d, chain, r=None, only=None, path=None):
                 if wb[0] == "ok" and gb[0] == "ok":
                     if wb[1] != gb[1]:
                         bad("build-differs", caseb, "%s.build(%r, %s) = %s, scope model %s" % (show, v, kw, gb[1].hex(), wb[1].hex()))
-                    elif not has_union and not is_flag:
+                    elif not has_union and not is_flag and not discards:
                         back = rt.parse(d, gb[1], kw)
                         # what the bytes mean according to the scope model (equals the value unless a derived member was recomputed)
                         wback = outcome_ref(lambda: R.parse(t, wb[1], **kw))
@@ -324,10 +345,10 @@ def run_unit(unit, tier):
         run_index_after(r)
         return r
     for chain in unit["chains"]:
-        if "GreedyRange" in chain and "LazyStruct" in chain[chain.index("GreedyRange"):]:
-            # a LazyStruct of fixed-size members seeks instead of reading, so it never meets the end of the stream:
-            # GreedyRange over it does not terminate (recorded separately, see DESIGN); not a scope question
-            r.extra["skipped-greedyrange-over-lazystruct"] += 1
+        dpos = [i for i, k in enumerate(chain) if k in ("ArrayD", "GreedyRangeD")]
+        if dpos and "LazyStruct" in chain[dpos[0]:]:
+            # discarded lazy elements are never evaluated, so their deferred validation never happens (laziness, not a scope question)
+            r.extra["skipped-discard-over-lazystruct"] += 1
             continue
         lazy_at = chain.index("LazyStruct") if "LazyStruct" in chain else None
         if lazy_at is not None and "Prefixed" in chain[lazy_at:]:
